@@ -206,6 +206,26 @@ Theorem C17_dataclass_reference : forall d pos kw,
 Proof. exact dc_construct_ref. Qed.
 Print Assumptions C17_dataclass_reference.
 
+(* inherited layouts: a class deriving from a dataclass (or from a node's .dataclass), decorated
+   or not, is cast like any other class; its fields are [merge_fields base own] -- base fields
+   first, a field declared again keeps its place with the new declaration, new fields appended.
+   Distinct names are preserved, so C17_dataclass applies to every such layout. *)
+Theorem C17_dataclass_inherited_names : forall child parent,
+  NoDup (map fd_name parent) -> NoDup (map fd_name (merge_fields parent child)).
+Proof. exact merge_fields_nodup. Qed.
+Print Assumptions C17_dataclass_inherited_names.
+
+Theorem C17_dataclass_inherited_order : forall child parent,
+  exists extra, map fd_name (merge_fields parent child) = map fd_name parent ++ extra.
+Proof. exact merge_fields_base_first. Qed.
+Print Assumptions C17_dataclass_inherited_order.
+
+Theorem C17_dataclass_inherited_override : forall f fs,
+  In (fd_name f) (map fd_name fs) ->
+  In f (put_field f fs) /\ map fd_name (put_field f fs) = map fd_name fs.
+Proof. intros f fs H. split; [exact (put_field_replaces f fs H) | exact (put_field_names_old f fs H)]. Qed.
+Print Assumptions C17_dataclass_inherited_override.
+
 (* list_to_outputs(n), ALL n: in every state the node reaches without failing (fresh instance
    included, cache hit or not), a list given positionally or by keyword
      - of exactly n items goes to the outputs item by item, and the item dict is returned;
